@@ -1,8 +1,9 @@
 #!/bin/bash
 # usage: seed_report.sh <ID> [patch]  -> prints the violation keys the seeded change ADDS to the property's quick check
 # (violations reported with the patch applied minus those reported on the unchanged tree), and writes them to seeded/<ID>/caught.txt
-id=$1
-patch=${2:-/verif/seeded/$id/patch.diff}
+dir=$1
+id=$(echo $dir | cut -c1-3)
+patch=${2:-/verif/seeded/$dir/patch.diff}
 out=/tmp/oxv-seed-out
 cd /verif
 OXV_OUTDIR=$out ./check $id > /tmp/oxv-base-$id.log 2>&1
@@ -11,4 +12,4 @@ OXV_OUTDIR=$out ./check $id > /tmp/oxv-seed-$id.log 2>&1; rc=$?
 git -C /repo checkout -- .
 grep -E "^$id R|^$id [A-Z][0-9]" /tmp/oxv-base-$id.log | sed -E 's/ at .*//' | sort > /tmp/oxv-base-$id.keys
 grep -E "^$id R|^$id [A-Z][0-9]" /tmp/oxv-seed-$id.log | sed -E 's/ at .*//' | sort > /tmp/oxv-seed-$id.keys
-{ echo "# violations added by seeded/$id/$(basename $patch) (quick check exit=$rc)"; comm -13 /tmp/oxv-base-$id.keys /tmp/oxv-seed-$id.keys; } | tee /verif/seeded/$id/caught.txt
+{ echo "# violations added by seeded/$dir/$(basename $patch) (quick check exit=$rc)"; comm -13 /tmp/oxv-base-$id.keys /tmp/oxv-seed-$id.keys; } | tee /verif/seeded/$dir/caught.txt
